@@ -26,6 +26,10 @@ CHECKS = [
         "Seeded histories of Pin/PinPath/PinUpdate/Unpin/UnpinPath with every option combination against a real Cluster; after every call the returned error class and the whole pinset are compared with an executable reference model of the statement (refusal rules, identical re-pin keeps allocations, any changed/added/removed option is stored, unpin removes exactly the entry or the sharded triple, update copies allocations and options and keeps the source). Sampling, not proof.",
         "Consensus is a single-copy model over the real dsstate; expiry compared in whole seconds; empty metadata keys/values and updates onto sharded entries are not generated because the statement does not determine them.",
         "DESIGN.md §6 C04", "clustersim"),
+    chk("C10", "exploration",
+        "Seeded search over pinsets (any allocations, factor pairs, options, entries created by pin-update), peersets of 1-8 real Cluster peers sharing one model consensus with commit latency, survivor metric states, re-pinning and follower switches: one member fails (ping alert delivered to every survivor, sequentially or overlapping, possibly twice) or is removed with PeerRemove; the pinset before/after and the per-peer consensus call log decide: nothing dropped, untouched entries byte-identical, under-replicated entries re-homed to usable peers other than the failed one with all options preserved and by exactly one survivor; StateSync on every peer after the clock moved unpins each expired entry exactly once and no unexpired one. Sampling, not proof.",
+        "All peers share one metric view and agree on the peerset (given in the statement); follower mode is all-or-none; entries expiring around the failure instant are not judged for re-homing.",
+        "DESIGN.md §6 C10", "clustersim"),
     chk("C05", "exploration",
         "Seeded search over tracker histories: the real stateless tracker + operation tracker run against a model pinset and a model IPFS daemon whose calls the plan parks, reorders, fails, loses or lets be cancelled; at every quiescent instant the daemon must match the last instruction or the status must be an error status, and after recover rounds with a healthy daemon it must match the pinset including the pin mode. Sampling, not proof.",
         "Trusted: the model daemon (cancellation is a barrier; direct-over-recursive is refused as in go-ipfs), gorpc local calls, the synctest bubble and the patched runtime. Interleavings inside one simulated instant are chosen by the runtime tie-break seed, not enumerated.",
@@ -67,7 +71,7 @@ def main():
             "add_only": True,
         },
         "engines": [
-            {"name": "clustersim", "path": "/verif/harness/clustersim", "serves_properties": ["C03", "C04"], "kind_free_text": "real ipfscluster.Cluster + real allocators on mocknet against model consensus/monitor/tracker/IPFS"},
+            {"name": "clustersim", "path": "/verif/harness/clustersim", "serves_properties": ["C03", "C04", "C10"], "kind_free_text": "real ipfscluster.Cluster + real allocators on mocknet against model consensus/monitor/tracker/IPFS"},
             {"name": "monsim", "path": "/verif/harness/monsim", "serves_properties": ["C09"], "kind_free_text": "real metrics Store/Window/Checker and pubsubmon over gossipsub on mocknet under the fake clock"},
             {"name": "trackersim", "path": "/verif/harness/trackersim", "serves_properties": ["C05", "C06"], "kind_free_text": "real stateless tracker + optracker in a synctest bubble against model pinset and model IPFS daemon"},
         ],
